@@ -32,7 +32,7 @@ TIMEOUT = {"quick": 1500, "thorough": 7200}
 FLOORS = {"quick": {"purity_evals": 3000, "reuse_comparisons": 250, "thread_results_compared": 150, "thread_switches_in_mappyfile": 300,
                     "quiescent_state_checks": 100, "frontend_history_steps": 400},
           "thorough": {"purity_evals": 25000, "reuse_comparisons": 15000, "thread_results_compared": 3000,
-                       "thread_switches_in_mappyfile": 20000, "quiescent_state_checks": 5000, "frontend_history_steps": 20000}}
+                       "thread_switches_in_mappyfile": 20000, "quiescent_state_checks": 5000, "frontend_history_steps": 8000}}
 ASSUMPTIONS = ["fingerprints are a canonical, type-tagged, order-preserving serialisation (mf/core.py)",
                "'any schedule' is restated as: the interleavings CPython's GIL actually produced under yield injection (counted)"]
 DOMAIN = ["dumps with separate_complex_types and validate with add_comments are documented to modify their argument and are excluded"]
